@@ -128,6 +128,17 @@ Theorem C12_config_reports_same_activity :
   forall now w, q_config now w = (w_num w, w_pal w, w_limit w, w_start w, w_end w, q_active now w).
 Proof. exact config_window. Qed.
 
+(* activity follows the schedule alone: whatever the stored members and the member count
+   are replaced by (the empty list and 0 included), IsActive, HasStarted, HasEnded and
+   Config.is_active answer the same *)
+Theorem C12_activity_ignores_members :
+  forall now w num mem,
+  q_active now (set_members w num mem) = q_active now w /\
+  q_started now (set_members w num mem) = q_started now w /\
+  q_ended now (set_members w num mem) = q_ended now w /\
+  snd (q_config now (set_members w num mem)) = snd (q_config now w).
+Proof. exact activity_ignores_members. Qed.
+
 (* ---- non-vacuity: concrete whitelists of each kind, a bent-then-moved schedule, the
    genesis clamp, and the boundary instants ---- *)
 Definition ex_valid (a : addr) : bool := 60 <=? a.
@@ -192,3 +203,4 @@ Print Assumptions C12_is_active_iff.
 Print Assumptions C12_has_started_iff.
 Print Assumptions C12_has_ended_iff.
 Print Assumptions C12_config_reports_same_activity.
+Print Assumptions C12_activity_ignores_members.
